@@ -474,6 +474,8 @@ where
         let this = self.clone();
 
         mods.par_iter().for_each_with(this, |this, (p, def_ids)| {
+            #[cfg(pilota_verif)]
+            crate::verif_hook::task_begin(p);
             let mut stream = pkgs.entry(p.clone()).or_default();
 
             let span = tracing::span!(tracing::Level::TRACE, "write_mod", path = ?p);
@@ -488,6 +490,8 @@ where
                     this.write_item(&mut stream, *def_id, &mut dup)
                 }
             }
+            #[cfg(pilota_verif)]
+            crate::verif_hook::task_end(p);
         });
 
         fn write_stream(
